@@ -47,7 +47,7 @@ MIN_HITS = {
         'mon:mime': 3000, 'mon:domain': 4000, 'mon:cluster': 2000, 'mon:geom': 2000, 'mon:algo': 30, 'algo-all-clients-empty': 12,
         'fully-padded-batch': 150, 'arbitrary-mask': 100, 'garbage-padding': 200, 'empty-client': 30, 'empty-domain': 400,
         'via-model': 300, 'reg:with-centre': 300, 'reg:none': 150, 'geometry:hand-built': 100, 'algo:mime': 2,
-        'algo:mime_lite': 2, 'algo:agnostic_fed_avg': 2, 'algo:hyp_cluster': 2, 'mon:eager': 1000, 'hit:eager-repeat-avgloss': 300, 'hit:cluster-losses-on-pmap': 150, 'hit:big-batch-domain-pass': 30, 'hit:loss-raised-mid-evaluation': 100, 'hit:twin-regularizers': 100,
+        'algo:mime_lite': 2, 'algo:agnostic_fed_avg': 2, 'algo:hyp_cluster': 2, 'mon:eager': 1000, 'hit:eager-repeat-avgloss': 300, 'hit:cluster-losses-on-pmap': 150, 'hit:big-batch-domain-pass': 30, 'hit:loss-raised-mid-evaluation': 100, 'hit:twin-regularizers': 100, 'hit:regularizer-moved-between-builds': 300,
     },
     'thorough': {
         'mon:grad': 15000, 'mon:avgloss': 25000, 'mon:regonce': 25000, 'mon:empty': 15000, 'mon:evaluator': 20000,
@@ -55,7 +55,7 @@ MIN_HITS = {
         'fully-padded-batch': 1500, 'arbitrary-mask': 1000, 'garbage-padding': 2000, 'empty-client': 300,
         'empty-domain': 4000, 'via-model': 3000, 'reg:with-centre': 3000, 'reg:none': 1500, 'geometry:hand-built': 1000,
         'algo:mime': 25, 'algo:mime_lite': 25, 'algo:agnostic_fed_avg': 25, 'algo:hyp_cluster': 25,
-        'mon:eager': 10000, 'hit:eager-repeat-avgloss': 3000,
+        'mon:eager': 10000, 'hit:eager-repeat-avgloss': 3000, 'hit:regularizer-moved-between-builds': 3000,
     },
 }
 TECHNIQUE = ('runtime monitoring: float64 closed-form gradients / losses / per-domain sums on every execution + differential '
@@ -264,6 +264,7 @@ class Config:
           eval_metrics={})
       self.loss = models.model_per_example_loss(model)
       self.grad_fn = models.model_grad(model, self.reg)
+      self.build_grad = lambda reg_: models.model_grad(model, reg_)
     else:
 
       def per_example_loss(params, batch, rng):
@@ -272,6 +273,7 @@ class Config:
 
       self.loss = per_example_loss
       self.grad_fn = models.grad(per_example_loss, self.reg)
+      self.build_grad = lambda reg_: models.grad(per_example_loss, reg_)
     self.evaluator = models.AverageLossEvaluator(self.loss, self.reg)
     # the same evaluator built while the pmap backend is in effect (it yields clients ordered by decreasing batch count, not in
     # the order it was given them)
@@ -430,6 +432,38 @@ def batch_case(ctx, mods, cfgs, MK, i, rng):
       ctx.check(tree_within(resid, exp['reg_grad'], exp['grad_scale']), 'regonce/grad-regularizer-not-once',
                 f'{which}: gradient minus data term is not exactly one regularizer gradient', {**w_, 'residual': resid,
                                                                                             'reg_grad': exp['reg_grad']})
+  # ---- ONE regularizer object whose centre the caller moves between rounds (a proximal term towards the round's server
+  #      parameters), the gradient function being built anew from it each round: every build carries the regularizer as it is
+  #      when that build is first used, exactly once
+  if i % 5 == 2 and n > 0:
+    class _MovingProx:
+      def __init__(self, weight, centre):
+        self.weight, self.centre = weight, centre
+
+      def __call__(self, p):
+        return self.weight * sum(jnp.sum(jnp.square(p[k] - self.centre[k])) for k in sorted(p))
+
+    mw = float([0.25, 1.0, 3.0][i % 3])
+    mreg = _MovingProx(mw, None)
+    for rnd, off in enumerate((0.5, -1.25, 2.0)):
+      centre = {k: np.asarray(v, np.float32) + np.float32(off) for k, v in params.items()}
+      if rnd == 1:
+        mreg.centre.update({k: jnp.asarray(v) for k, v in centre.items()})      # moved in place ...
+      else:
+        mreg.centre = {k: jnp.asarray(v) for k, v in centre.items()}            # ... or replaced
+      mw_ = {**wit, 'moving_regularizer_weight': mw, 'round': rnd, 'centre_offset': off,
+             'centre_changed': ['set', 'updated in place', 'replaced'][rnd]}
+      rm = ctx.call(which + '[rebuilt]', lambda: cfg.build_grad(mreg)(jparams, batch, key), witness=mw_)
+      if rm.ok:
+        gm = to64(rm.value)
+        want = {k: 2.0 * mw * (np.asarray(params[k], np.float64) - np.asarray(centre[k], np.float64)) for k in params}
+        resid = {k: gm[k] - exp['data_grad'][k] for k in gm}
+        sc = {k: np.asarray(exp['grad_scale'][k], np.float64) + np.abs(want[k]) + 1.0 for k in want}
+        ctx.count('hit:regularizer-moved-between-builds')
+        ctx.check(tree_within(resid, want, sc), 'regonce/rebuilt-grad-carries-an-earlier-regularizer-state',
+                  f'{which} built anew from a regularizer object whose centre moved since the previous build: gradient minus data '
+                  'term is not this round\'s regularizer gradient', {**mw_, 'residual': resid, 'expected_reg_grad': want})
+
   # ---- the same function on the real rows alone (no padding, no mask); 6 row counts bound the compilations
   alone = n in UNPADDED_SHAPES
   if alone:
@@ -1104,3 +1138,5 @@ def run(ctx):
   ctx.notes['shard0_seconds_algo_family'] = round(time.time() - t0, 1)
   for cid, rng in ctx.cases('bigbatch', 12 if ctx.quick else 96):
     bigbatch_case(ctx, mods, rng, int(cid.split('/')[1]))
+TECHNIQUE += '; gradient functions rebuilt from one regularizer object whose centre moves between builds'
+RULE += " Wave-8 addition: one regularizer object whose centre is replaced / updated in place between rounds, model_grad / grad built anew each round: gradient minus data term must be that round's regularizer gradient."
